@@ -18,7 +18,7 @@ META = {
 
 
 def run(ctx):
-    b, viols, hists, stats, st = wcorepipe.model_check(ctx, "C01", "ideal", "split", ["NoFault", "ClaimedRanges"], {"viol", "range"})
+    b, viols, hists, stats, st = wcorepipe.model_check(ctx, "C01", "ideal", "oneshot" if ctx.tier == "quick" else "split", ["NoFault", "ClaimedRanges"], {"viol", "range"})
     wcorepipe.report_model_violations(ctx, "C01", viols)
     cov = wcorepipe.coverage_common(ctx, b, stats, st)
     cov["traces_validated_against_impl"] = 0
